@@ -213,8 +213,9 @@ def c_code_of(p):
 
 
 class Session:
-    def __init__(self, rng, uid, emit, stats):
+    def __init__(self, rng, uid, emit, stats, deadline=None):
         self.rng, self.uid, self.emit, self.stats = rng, uid, emit, stats
+        self.deadline = deadline or (time.time() + 3600)
         self.live: list[Live] = []
         self.ops: list[dict] = []
         self.src = ""
@@ -263,9 +264,12 @@ class Session:
                     fp = proc_fp(p._loopir_proc)
                     if fp != l.fp:
                         what, detail = first_diff(l.fp, fp)
+                        after = safe_str(p)
                         self.violation(opname, what, "procedure #%d (%s): %s" % (n, l.origin, detail), step,
-                                       extra={"before": l.text, "after": safe_str(p)})
+                                       extra={"before": l.text, "after": after})
                         l.fp = fp  # report each change once
+                        l.text = after
+                        l.ccode = None
                     else:
                         txt = str(p)
                         if txt != l.text:
@@ -435,6 +439,23 @@ class Session:
         base = self.procs()[-1]
         base.ccode = c_code_of(main)
         self.check_all("c_code_str", -1)
+        # a caller-owned list of cursors handed to a primitive must come back unchanged
+        try:
+            st0 = sched.Sites(main)
+            if st0.binops:
+                lst = [st0.binops[0]]
+                ids = [id(c) for c in lst]
+                self.ops.append({"step": -1, "op": "commute_expr", "descr": "caller-owned list [first BinOp cursor of foo]"})
+                try:
+                    sched.S.commute_expr(main, lst)
+                except Exception:
+                    pass
+                if [id(c) for c in lst] != ids:
+                    self.violation("commute_expr", "argument-list", "the list of cursors passed by the caller was edited in place: "
+                                   "its elements were replaced by other cursor objects", -1)
+                self.check_all("commute_expr", -1)
+        except Exception:
+            pass
         level = [base]
         step = 0
         for depth in range(2):
@@ -451,6 +472,9 @@ class Session:
                     rng.shuffle(cands)
                     cands = cands[:10]
                 for opname, descr, thunk in cands:
+                    if time.time() > self.deadline:
+                        self.stats["sweeps_cut_short"] = self.stats.get("sweeps_cut_short", 0) + 1
+                        break
                     rec = {"step": step, "op": opname, "descr": descr, "on": self.live.index(tgt)}
                     try:
                         res = thunk()
@@ -486,7 +510,7 @@ class Session:
     def query(self, tgt, step):
         rng = self.rng
         p = tgt.obj
-        kinds = ["str", "find", "find_all", "c_code_str", "nav", "forward", "find_loop", "args", "eq"]
+        kinds = ["str", "find", "find_all", "c_code_str", "nav", "forward", "find_loop", "args", "eq", "listarg", "listarg"]
         k = rng.choice(kinds)
         rec = {"step": step, "op": "query:" + k, "on": self.live.index(tgt)}
         try:
@@ -528,6 +552,30 @@ class Session:
                     if isinstance(r, PC.Cursor):
                         self.live.append(Live("cursor", r, "navigation %s at step %d" % (m, step)))
                     str(c)
+            elif k == "listarg":
+                # a caller-owned LIST of cursors handed to a primitive: neither the cursors nor the list may change
+                chain, q = [], p
+                while q is not None and len(chain) < 6:
+                    chain.append(q)
+                    q = q._provenance_eq_Procedure
+                src_p = rng.choice(chain)
+                st = sched.Sites(src_p)
+                if st.binops:
+                    lst = [rng.choice(st.binops)]
+                    ids = [id(c) for c in lst]
+                    fps = [cursor_fp(c) for c in lst]
+                    op = rng.choice(["commute_expr", "bind_expr"])
+                    rec["descr"] = "%s(<procedure #%d>, [a BinOp cursor of its ancestor %d steps back])" % (
+                        op, self.live.index(tgt), chain.index(src_p))
+                    try:
+                        if op == "commute_expr":
+                            sched.S.commute_expr(p, lst)
+                        else:
+                            sched.S.bind_expr(p, lst, "lb_%d" % step)
+                    finally:
+                        if [id(c) for c in lst] != ids or [cursor_fp(c) for c in lst] != fps:
+                            self.violation(op, "argument-list", "the list of cursors passed by the caller was edited in place: "
+                                           "its elements were replaced by other cursor objects", step)
             elif k == "forward":
                 cs = [l for l in self.cursors() if not isinstance(l.obj, PC.InvalidCursor)]
                 if cs:
@@ -575,7 +623,7 @@ def main():
             stats["sweeps_stopped_by_time_cap_after"] = i
             break
         srng = random.Random(rng.getrandbits(48))
-        s = Session(srng, "%ss%d" % (tag, i), emit, stats)
+        s = Session(srng, "%ss%d" % (tag, i), emit, stats, deadline=t0 + cap * 0.55)
         try:
             s.sweep(srng.randrange(1000))
         except Exception as e:
